@@ -46,6 +46,27 @@ func GenIngressWorld(t *rapid.T, admin bool) *World {
 			wl.Ports = append(wl.Ports, cp)
 		}
 	}
+	// the same port NAME in two containers of one pod (names are unique per container, not per pod): a second TCP port
+	// of another number under a name the first container already uses. The first one in container order is what the
+	// name means (as for Kubernetes' own endpoints). Only for names no policy of the world uses.
+	if len(w.Workloads) > 0 && rapid.IntRange(0, 3).Draw(t, "ingdupname") == 0 {
+		wl := &w.Workloads[rapid.IntRange(0, len(w.Workloads)-1).Draw(t, "ingdupnamewl")]
+		for k, cp := range wl.Ports {
+			if cp.Name == "" || protoOr(cp.Proto) != "TCP" || worldUsesPortName(w, cp.Name) {
+				continue
+			}
+			wl.SplitContainers, wl.NCont = true, 0 // two containers, ports dealt alternately
+			if len(wl.Ports)%2 == k%2 {
+				wl.Ports = append(wl.Ports, CPort{Number: 6060, Proto: "UDP"}) // filler: the twin lands in the other container
+			}
+			num := rapid.SampledFrom(svcPortPool).Draw(t, "ingdupnamenum")
+			if num == cp.Number {
+				num = cp.Number + 1
+			}
+			wl.Ports = append(wl.Ports, CPort{Name: cp.Name, Number: num, Proto: "TCP"})
+			break
+		}
+	}
 	ns := func(l string) string { return w.Namespaces[rapid.IntRange(0, len(w.Namespaces)-1).Draw(t, l)].Name }
 	nsv := rapid.IntRange(0, 3).Draw(t, "nsvc")
 	for i := 0; i < nsv; i++ {
@@ -355,7 +376,8 @@ func ingressPorts(w *World, W *Workload, lenient bool) (res map[int]bool, target
 			p = sp.TargetNum
 		} else if sp.TargetName != "" {
 			p = 0
-			for _, cp := range W.Ports {
+			// the first port of that name in the pod, containers in their order (names are unique per container only)
+			for _, cp := range W.flatPorts() {
 				if cp.Name == sp.TargetName {
 					if protoOr(cp.Proto) == "TCP" {
 						p = cp.Number
@@ -425,4 +447,57 @@ func ingressPorts(w *World, W *Workload, lenient bool) (res map[int]bool, target
 		}
 	}
 	return res, targeted
+}
+
+// flatPorts: the container ports of the workload's pods in the order of the pod spec (podSpec deals Ports over the
+// containers alternately; the pod's port list is container by container).
+func (wl *Workload) flatPorts() []CPort {
+	n := 1
+	if wl.SplitContainers {
+		n = 2
+	}
+	if wl.NCont > 0 {
+		n = wl.NCont
+	}
+	var out []CPort
+	for c := 0; c < n; c++ {
+		for i, p := range wl.Ports {
+			if i%n == c {
+				out = append(out, p)
+			}
+		}
+	}
+	return out
+}
+
+// worldUsesPortName: some policy rule of the world names this port.
+func worldUsesPortName(w *World, name string) bool {
+	for _, p := range w.NPs {
+		for _, rs := range [][]Rule{p.Ingress, p.Egress} {
+			for _, r := range rs {
+				for _, pp := range r.Ports {
+					if pp.PortNam == name {
+						return true
+					}
+				}
+			}
+		}
+	}
+	var as []AdminPol
+	as = append(as, w.ANPs...)
+	if w.BANP != nil {
+		as = append(as, *w.BANP)
+	}
+	for _, a := range as {
+		for _, rs := range [][]ARule{a.Ingress, a.Egress} {
+			for _, r := range rs {
+				for _, ap := range r.Ports {
+					if ap.Name == name {
+						return true
+					}
+				}
+			}
+		}
+	}
+	return false
 }
